@@ -180,9 +180,11 @@ Definition derive_secret_model (sha3 : bool) (secret label trHash : list N) : re
   hkdf_expand_label_model sha3 secret label h (hash_size sha3).
 
 Definition zero_bytes (n : nat) : list N := repeat 0%N n.
-(* tls13GenerateEarlySecret: HKDF-Extract(zeroSalt[hashLen], psk or dummyPsk[hashLen]) *)
+(* tls13GenerateEarlySecret: HKDF-Extract(zeroSalt[hashLen], psk or dummyPsk[hashLen]); the LENGTHS passed with the all-zero
+   buffers are read off the call sites (Gen/TlsLabels.v zlen_*: a function of the hash length) *)
 Definition early_secret_model (sha3 : bool) (psk : option (list N)) : res (list N) :=
-  hkdf_extract_model sha3 (zero_bytes (hash_size sha3)) (match psk with Some p => p | None => zero_bytes (hash_size sha3) end).
+  hkdf_extract_model sha3 (zero_bytes (zlen_early_salt (hash_size sha3)))                    (* zeroSalt, hashLen *)
+                     (match psk with Some p => p | None => zero_bytes (zlen_dummy_psk (hash_size sha3)) end).   (* dummyPsk, pskValLen *)
 (* ------------------------------------------------------------------ which PSK the stored Early Secret comes from
    tls13GenerateEarlySecret 152-236 keeps the Early Secret across calls (tls13KsState.generateEarlySecretDone) and
    regenerates it only `if (tls13DidEncodePsk && !tls13UsingPsk)`: "we tried to use a PSK (and thus bootstrapped our key
@@ -229,7 +231,7 @@ Record hs_secrets := { m_handshake : list N; m_c_hs : list N; m_s_hs : list N }.
 (* tls13DeriveHandshakeTrafficSecrets: shared = the (EC)DHE secret, or secretLen zero bytes in psk_ke mode *)
 Definition hs_secrets_model (sha3 : bool) (early : list N) (shared : option (list N)) (snapCHtoSH : list N) : res hs_secrets :=
   bind (derive_secret_model sha3 early l_derived []) (fun derived =>
-  bind (hkdf_extract_model sha3 derived (match shared with Some s => s | None => zero_bytes (hash_size sha3) end)) (fun hs =>
+  bind (hkdf_extract_model sha3 derived (match shared with Some s => s | None => zero_bytes (zlen_pskke_ikm (hash_size sha3)) end)) (fun hs =>
   bind (derive_secret_model sha3 hs l_c_hs_traffic snapCHtoSH) (fun c =>
   bind (derive_secret_model sha3 hs l_s_hs_traffic snapCHtoSH) (fun s =>
     Ok {| m_handshake := hs; m_c_hs := c; m_s_hs := s |})))).
@@ -244,7 +246,7 @@ Record app_secrets := { m_master : list N; m_c_ap : list N; m_s_ap : list N }.
 (* tls13DeriveAppTrafficSecrets: snapshot = tls13TrHashSnapshot taken after the server Finished *)
 Definition app_secrets_model (sha3 : bool) (hs snapshot : list N) : res app_secrets :=
   bind (derive_secret_model sha3 hs l_derived []) (fun derived =>
-  bind (hkdf_extract_model sha3 derived (zero_bytes (hash_size sha3))) (fun master =>
+  bind (hkdf_extract_model sha3 derived (zero_bytes (zlen_master_ikm (hash_size sha3)))) (fun master =>
   bind (derive_secret_model sha3 master l_c_ap_traffic snapshot) (fun c =>
   bind (derive_secret_model sha3 master l_s_ap_traffic snapshot) (fun s =>
     Ok {| m_master := master; m_c_ap := c; m_s_ap := s |})))).
